@@ -4,5 +4,5 @@ set -e
 cd "$(dirname "$(readlink -f "$0")")"
 export CARGO_NET_OFFLINE=true
 mkdir -p evidence replays/found logs
-( cd harness && cargo build --release 2>&1 | tail -3 )
-/verif/target/release/verif list
+( cd harness && CARGO_TARGET_DIR="${CARGO_TARGET_DIR:-$PWD/../target}" cargo build --release 2>&1 | tail -3 )
+"${CARGO_TARGET_DIR:-$PWD/target}"/release/verif list
